@@ -190,6 +190,9 @@ func cmdRun(args []string) {
 		os.Exit(3)
 	}
 	fmt.Printf("generated in %.1fs\n", time.Since(t0).Seconds())
+	for _, r := range E.nameRepairs {
+		fmt.Println("NOTE name-repair:", r)
+	}
 	scratch := *dump
 	if scratch == "" {
 		scratch = scratchDir()
@@ -436,6 +439,20 @@ func cmdCheck(args []string, writeLedger bool) {
 			if i := strings.Index(fnKey, "/"); i >= 0 {
 				fnKey = fnKey[:i]
 			}
+			if rest := strings.TrimPrefix(le.Name, fnKey+"/"); strings.HasPrefix(rest, "call-cover.") {
+				// a vacuity guard of a call site that no longer exists guards nothing: not a violation as long as the
+				// function itself is still generated without errors (its other obligations are all still demanded)
+				alive := false
+				for _, fr := range frs {
+					if strings.HasSuffix(fnKey, "."+fr.Key) && len(fr.Errs) == 0 && len(fr.Obls) > 0 {
+						alive = true
+					}
+				}
+				if alive {
+					droppedGuards = append(droppedGuards, le.Name)
+					continue
+				}
+			}
 			reason := "cannot-generate: obligation no longer generated (function, loop or call structure under contract changed)"
 			for _, fr := range frs {
 				if strings.HasSuffix(fnKey, "."+fr.Key) && len(fr.Errs) > 0 {
@@ -556,6 +573,9 @@ func writeJSON(path string, v interface{}) {
 // nameRepairsOut: contract clauses re-read with renamed identifiers in this run (names.go); empty on the pinned tree
 var nameRepairsOut = []string{}
 
+// droppedGuards: ledger vacuity guards (call-cover) whose call site no longer exists in a function that is otherwise intact
+var droppedGuards = []string{}
+
 func writeEvidence(root, prop, tier string, seed int, frs []*FuncResult, all []*Obligation, cfg PropCfg, wall float64, violations int, bounded []map[string]interface{}, discharged int) {
 	var ledgerNames map[string]bool
 	if lb, err := os.ReadFile(filepath.Join(root, "ledger", prop+".json")); err == nil {
@@ -649,6 +669,7 @@ func writeEvidence(root, prop, tier string, seed int, frs []*FuncResult, all []*
 		"generated_not_in_ledger":  notLedger,
 		"abstracted_constructs":    abs,
 		"name_repairs":             nameRepairsOut,
+		"guards_of_removed_call_sites": droppedGuards,
 		"not_decided":              cfg.NotDecided,
 		"bounded_checks":           bounded,
 	}
